@@ -119,11 +119,31 @@ def true_defective(prog):
     vs = program_variables(prog)
     lin = {v: set() for v in vs}     # v depends on w (any edge)
     nonlin = {v: set() for v in vs}  # v depends non-linearly on w
+    # loop constants: every alternative of every assignment is the variable itself (y = 1*y); they keep their initial value
+    # and count as numbers (x = y*x is linear then) - least fixed point
+    inits = {st[1]: eval_expr(st[2][1], {}) for st in prog.init if st[0] == "assign" and st[2][0] == "poly"}
+    consts = {}
+    changed = True
+    while changed:
+        changed = False
+        for v in vs:
+            if v in consts or v not in inits:
+                continue
+            alts = []
+            for st in prog.body:
+                if st[1] == v:
+                    alts += [st[2][1]] if st[2][0] == "poly" else [e for e, _ in st[2][1]]
+            env0 = {w: (consts[w] if w in consts else AP.gen(("v", w))) for w in vs}
+            if all(eval_expr(e, env0) == AP.gen(("v", v)) for e in alts):
+                consts[v] = inits[v]
+                changed = True
     for st in prog.body:
         v, rhs = st[1], st[2]
+        if v in consts:
+            continue
         polys = [rhs[1]] if rhs[0] == "poly" else [e for e, _ in rhs[1]]
         for e in polys:
-            val = eval_expr(e, {w: AP.gen(("v", w)) for w in vs})
+            val = eval_expr(e, {w: (consts[w] if w in consts else AP.gen(("v", w))) for w in vs})
             if not isinstance(val, AP):
                 continue
             for mono in val.t:
